@@ -357,6 +357,19 @@ func (h *H) ImportMnemonic(num int, mnemonic, pass string, passID int) (*WInfo, 
 	return h.afterImport(num, ws.WalletID, pass, passID, mnemonic)
 }
 
+// ImportMnemonicHint is ImportMnemonic with an external index hint (a possibly stale count of issued addresses).
+func (h *H) ImportMnemonicHint(num int, mnemonic, pass string, passID int, ext uint32) (*WInfo, error) {
+	h.dropRetired(num)
+	ws, err := h.W.WM.ImportWalletWithMnemonic(&keystore.WalletParams{
+		Version: keystore.KeystoreVersion0, Mnemonic: mnemonic, PrivatePassphrase: []byte(pass), ExternalIndex: ext,
+		AddressGapLimit: h.W.Cfg.Wallet.Settings.AddressGapLimit})
+	if err != nil {
+		h.emit("W import %d %d err 0", num, passID)
+		return nil, err
+	}
+	return h.afterImport(num, ws.WalletID, pass, passID, mnemonic)
+}
+
 // ImportKeystoreJSON restores a wallet from an exported keystore.
 func (h *H) ImportKeystoreJSON(num int, js, pass string, passID int) (*WInfo, error) {
 	h.dropRetired(num)
